@@ -64,6 +64,7 @@ ASSUMPTIONS = [
     "the nonlinear solvers (neqs Levenberg, scipy root/lm incl. its success flag) and numpy lstsq are unmodelled; their outputs are validated per run (exit test, exact residuals)",
     "log-variables are modelled multiplicatively (level*change^shift); agreement with exp(log level + shift*log change) is a theorem over the reals, floating-point exp/log is compared with tolerance",
     "the order of the unknowns inside the evaluator's guess vector (CPython set order) is not modelled: the model uses increasing qid and the harness permutes the implementation's final guess accordingly; the *sets* of level/change unknowns are compared exactly",
+    "until pending_fixes/C05-split-blocks-fully-fixed is applied (probed once per run on the minimal case), a plan that fixes level and change of one quantity is not combined with an explicit split_into_blocks=True; corpus/C05/split-blocks-fully-fixed-quantity.json reports only once known_findings.json lists that site for C05",
     "exogenous variables are only combined with the nonlinear algorithm: with linear=True the steady algorithm ignores them (recorded C06 finding, same root cause; corpus/C05/linear-steady-ignores-exogenous-variables.json is reported only once known_findings.json lists that site for C05)",
     "generated models possess a steady state by construction (stationary blocks are strictly diagonally dominant for every variant, unit root with drift, balanced growth); the every-date oracle is only meaningful for such models -- for a singular parameterisation the linear algorithm (least squares) completes without error on a model that has no steady state, which is outside the property's quantifier",
 ]
@@ -196,9 +197,22 @@ def oracle_residual(code, kinds, levels, changes, t):
 # model generator
 # ---------------------------------------------------------------------------------------
 
+def eq_key(lr) -> str:
+    return f"{to_text(lr[0])} = {to_text(lr[1])}"
+
+
+def eq_source(dyn: dict, lr) -> str:
+    """source text of an equation: `steady` or, when the equation has a separate dynamic version, `dynamic !! steady`
+    (the generator's equation lists always hold the STEADY version -- the one the property is about)"""
+    k = eq_key(lr)
+    return f"{eq_key(dyn[k])} !! {k}" if k in dyn else k
+
+
 class Builder:
     def __init__(self, nv):
         self.nv = nv
+        self.dyn = {}            # steady text -> (lhs, rhs) of the dynamic version
+        self.fixboth = []        # (variable, parameter, is_log): level AND change can be fixed, the parameter endogenized
         self.tvars, self.mvars, self.logs = [], [], []
         self.params: dict[str, list[float]] = {}
         self.shocks = []
@@ -271,21 +285,51 @@ def mod_drift(G: Builder, rng: Rng):
     G.init[z] = (rng.choice([0.0, 1.0, -2.0, 3.0]), rng.choice([None, 0.0, 0.5]))
     G.fixlevels.append(z)
     G.fixchanges.append((z, d))
+    G.fixboth.append((z, d, False))
     G.tags.append("drift")
     return z
 
 
-def mod_meas(G: Builder, rng: Rng, extra):
+def mod_meas(G: Builder, rng: Rng, extra, intercept=None):
     o = G.fresh("obs"); G.mvars.append(o)
     pool = G.stationary + extra
     rhs = mul(N(rng.choice([1.0, 2.0, 0.5])), T(rng.choice(pool)))
     if rng.chance(0.6):
         rhs = add(rhs, mul(N(rng.choice([1.0, -1.0, 0.25])), T(rng.choice(pool))))
-    if rng.chance(0.5):
+    if intercept:
+        # a non-zero measurement intercept, as a literal or as a parameter
+        rhs = add(rhs, N(rng.choice([1.5, -0.5, 3.0])) if rng.chance(0.5) else T(G.param("mu", [1.5, -2.0, 0.25], rng)))
+    elif rng.chance(0.5):
         rhs = add(rhs, N(rng.choice([1.0, -0.5])))
     G.meqs.append((T(o), rhs))
     G.init[o] = (rng.choice([0.0, 1.0]), None)
     G.tags.append("meas")
+
+
+def mod_pin(G: Builder, rng: Rng):
+    """equations with a separate steady version (`dynamic !! steady`): an integrating dynamic equation whose long-run level is
+    pinned down only by its steady version (pi = pi[-1] + b*yg + eps !! pi = pit, yg a zero-mean process), and a stationary
+    one whose steady version is the solved form (xq = rho*xq[-1] + (1-rho)*aq + e !! xq = aq)"""
+    yg = G.fresh("yg"); pi = G.fresh("pi"); G.tvars += [yg, pi]
+    rho = G.param("rho", [0.5, 0.25, 0.75], rng); b = G.param("b", [0.25, 0.5, -0.25], rng)
+    pit = G.param("pit", [2.0, -1.0, 0.5, 3.0], rng)
+    e1, e2 = G.fresh("e"), G.fresh("e"); G.shocks += [e1, e2]
+    G.teqs.append((T(yg), add(mul(T(rho), T(yg, -1)), T(e1))))
+    st = (T(pi), T(pit))
+    G.dyn[eq_key(st)] = (T(pi), add(T(pi, -1), mul(T(b), T(yg)), T(e2)))
+    G.teqs.append(st)
+    G.init[yg] = (rng.choice([0.0, 0.5]), None); G.init[pi] = (rng.choice([0.0, 1.0]), None)
+    if rng.chance(0.5):
+        xq = G.fresh("xq"); G.tvars.append(xq)
+        r2 = G.param("rho", [0.5, 0.25], rng); aq = G.param("a", [1.0, 2.0, -1.0], rng)
+        e3 = G.fresh("e"); G.shocks.append(e3)
+        st2 = (T(xq), T(aq))
+        G.dyn[eq_key(st2)] = (T(xq), add(mul(T(r2), T(xq, -1)), mul(sub(N(1), T(r2)), T(aq)), T(e3)))
+        G.teqs.append(st2)
+        G.init[xq] = (0.5, None)
+        G.stationary.append(xq)
+    G.stationary.append(pi)
+    G.tags.append("pin")
 
 
 def mod_loglin(G: Builder, rng: Rng, flat: bool):
@@ -334,6 +378,7 @@ def mod_bgp(G: Builder, rng: Rng, flat: bool):
         G.init[r] = (1.0, None)
     if not flat:
         G.fixlevels.append(y)
+        G.fixboth.append((y, g, True))
     G.tags.append("bgp")
 
 
@@ -399,6 +444,7 @@ def mod_trends(G: Builder, rng: Rng):
         G.init[n_] = (rng.choice([1.0, 0.0, 2.0]), rng.choice([None, 0.0, 0.5]))
     G.fixlevels += [t1]
     G.fixchanges += [(t1, g1), (t2, g2)]
+    G.fixboth += [(t1, g1, False), (t2, g2, False)]
     G.tags.append("trends")
     return [t1, t2] + members
 
@@ -420,7 +466,7 @@ def mod_logtrends(G: Builder, rng: Rng):
 
 
 def finish_case(G: Builder, linear, flat, plan, split, solver) -> dict:
-    eq_text = lambda lr: f"{to_text(lr[0])} = {to_text(lr[1])}"
+    eq_text = lambda lr: eq_source(G.dyn, lr)
     src = ["!transition-variables\n    " + ", ".join(G.tvars)]
     if G.logs: src.append("!log-variables\n    " + ", ".join(G.logs))
     src.append("!parameters\n    " + ", ".join(G.params))
@@ -492,6 +538,78 @@ def gen_hard_case(rng: Rng) -> dict:
     return case
 
 
+ZERO_KINDS = [0.0, -0.0, 0]          # float zero, negative zero, integer zero
+
+
+def gen_zero_const_case(rng: Rng) -> dict:
+    """data edge of the linear algorithm: a linear model in which EVERY transition equation has an exactly zero constant
+    (zero-mean processes: mean parameters 0.0 / -0.0 / integer 0, zero drift) while the measurement equations have non-zero
+    intercepts; some variants sit next to the edge instead (mean 1e-9, or an ordinary non-zero mean)"""
+    flat = rng.chance(0.5)
+    nv = rng.weighted([(1, 2), (2, 2), (3, 1)])
+    G = Builder(nv)
+    mod_ar(G, rng, rng.randint(1, 3), rng.chance(0.5))
+    if rng.chance(0.4):
+        mod_ar(G, rng, rng.randint(1, 2), False)
+    extra = []
+    if not flat and rng.chance(0.5):
+        extra.append(mod_drift(G, rng))
+    for _ in range(rng.randint(1, 2)):
+        mod_meas(G, rng, extra, intercept=True)
+    edge = rng.weighted([("all-zero", 6), ("one-variant-near", 2), ("one-variant-ordinary", 2)])
+    for name in G.params:
+        if name[0] in "ad" and not name.startswith("dl"):
+            vals = [rng.choice(ZERO_KINDS) for _ in range(nv)]
+            if edge != "all-zero":
+                vals[rng.randint(0, nv - 1)] = 1e-9 if edge == "one-variant-near" else rng.choice([1.0, -0.5])
+            G.params[name] = vals
+    for k in list(G.init):
+        if rng.chance(0.5):
+            G.init[k] = (rng.choice([0.0, 1.0, -1.0]), None)
+    G.tags += ["zero-const", edge]
+    eq_text = lambda lr: eq_source(G.dyn, lr)
+    src = ["!transition-variables\n    " + ", ".join(G.tvars), "!measurement-variables\n    " + ", ".join(G.mvars),
+           "!parameters\n    " + ", ".join(G.params), "!transition-shocks\n    " + ", ".join(G.shocks),
+           "!transition-equations\n" + "\n".join(f"    {eq_text(e)};" for e in G.teqs),
+           "!measurement-equations\n" + "\n".join(f"    {eq_text(e)};" for e in G.meqs)]
+    return {"source": "\n".join(src) + "\n", "linear": True, "flat": flat, "nv": nv, "params": G.params, "init": dict(G.init),
+            "plan": None, "split": None, "tags": G.tags, "solver": None,
+            "teqs": G.teqs, "meqs": G.meqs, "autos": [], "tvars": G.tvars, "mvars": G.mvars, "logs": [], "shocks": G.shocks}
+
+
+_FULLY_FIXED_SRC = ("!transition-variables\n    u, v, t1, t2\n!parameters\n    d1, d2\n!transition-equations\n"
+                    "    u = 2*t1 + 0.5*v[-1];\n    v = t2 + 0.25*u[+1];\n    t1 = t1[-1] + d1;\n    t2 = t2[-1] + d2;\n")
+_FULLY_FIXED_SPLIT_OK = None
+
+
+def fully_fixed_split_ok() -> bool:
+    """does this tree solve block by block correctly when the plan fixes level AND change of one quantity (finding
+    `split-blocks-fully-fixed-quantity`, pending fix C05-split-blocks-fully-fixed)? Probed once on the minimal case."""
+    global _FULLY_FIXED_SPLIT_OK
+    if _FULLY_FIXED_SPLIT_OK is None:
+        try:
+            m = ir.Simultaneous.from_string(_FULLY_FIXED_SRC)
+            m.assign(d1=0.5, d2=0.25, t1=(5.0, 0.5), t2=(1.0, 1.0), u=2.0, v=2.0)
+            p = ir.SteadyPlan(m); p.fix_level("t2"); p.fix_change("t2"); p.endogenize("d2")
+            with contextlib.redirect_stdout(io.StringIO()), np.errstate(all="ignore"):
+                m.solve_steady(plan=p, split_into_blocks=True)
+                ok = m.check_steady(when_fails="silent")
+            _FULLY_FIXED_SPLIT_OK = bool(ok)
+        except Exception:
+            _FULLY_FIXED_SPLIT_OK = False
+    return _FULLY_FIXED_SPLIT_OK
+
+
+def avoid_known_split_defect(case: dict) -> dict:
+    """until the pending fix is applied, a plan that fixes level and change of the same quantity is not combined with an
+    explicit split_into_blocks=True (the default, None, does not split when the plan fixes anything)"""
+    p = case.get("plan")
+    if p and case.get("split") is True and set(p["fixed_level"]) & set(p["fixed_change"]) and not fully_fixed_split_ok():
+        case["split"] = None
+        case["tags"] = case["tags"] + ["split-True-avoided(fully-fixed)"]
+    return case
+
+
 def gen_trend_case(rng: Rng) -> dict:
     """growth mode, more than eight quantities declared in a random order, a recursive chain of stationary variables and
     unit-root singles around exactly ONE simultaneous group (the blazer peels singletons and leaves one inner block, so
@@ -515,13 +633,19 @@ def gen_trend_case(rng: Rng) -> dict:
         z, d = rng.choice(G.fixchanges)
         plan = {"exogenized": [z], "endogenized": [d], "fixed_level": [], "fixed_change": []}
         G.init[z] = (rng.choice([1.0, -2.0, 3.0]), rng.choice([0.5, -0.25, 1.0]))
+    elif G.fixboth and rng.chance(0.5):
+        # level and change of a trend fixed at assigned values (written with whatever spelling), its drift found instead
+        z, d, _ = rng.choice(G.fixboth)
+        plan = {"exogenized": [], "endogenized": [d], "fixed_level": [z], "fixed_change": [z]}
+        G.init[z] = (rng.choice([1.0, -2.0, 3.0]), rng.choice([0.5, -0.25, 1.0, 2.0]))
     declared = list(G.tvars)
     rng.shuffle(declared); rng.shuffle(G.teqs)
     G.tags.append("shuffled")
     case = finish_case(G, False, False, plan, rng.choice([None, True, True, False]), rng.choice(list(SOLVERS)))
     case["source"] = case["source"].replace("!transition-variables\n    " + ", ".join(G.tvars),
                                             "!transition-variables\n    " + ", ".join(declared), 1)
-    return case
+    case["plan_spelling"] = rng.randint(1, 10**6) if plan else 0
+    return avoid_known_split_defect(case)
 
 
 def gen_case(rng: Rng, force=None) -> dict:
@@ -530,6 +654,8 @@ def gen_case(rng: Rng, force=None) -> dict:
         return gen_hard_case(rng)
     if force and force.get("trends"):
         return gen_trend_case(rng)
+    if force and force.get("zero_const"):
+        return gen_zero_const_case(rng)
     linear = rng.chance(0.4) if force is None else force.get("linear", False)
     flat = rng.chance(0.35) if force is None else force.get("flat", False)
     nv = rng.weighted([(1, 5), (2, 3), (3, 2)])
@@ -559,6 +685,8 @@ def gen_case(rng: Rng, force=None) -> dict:
             mod_logtrends(G, rng)
         if len(G.tvars) < 10:
             mod_ar(G, rng, rng.randint(2, 3), rich)
+    if rng.chance(0.35 if linear else 0.15):
+        mod_pin(G, rng)
     if rng.chance(0.5):
         mod_meas(G, rng, extra)
     # steady autovalues: an auxiliary parameter assigned from the final steady state
@@ -594,6 +722,13 @@ def gen_case(rng: Rng, force=None) -> dict:
             if z not in plan["exogenized"] and d not in plan["endogenized"]:
                 plan["fixed_change"].append(z); plan["endogenized"].append(d)
                 G.init[z] = (G.init[z][0] if G.init[z][0] is not None else 0.0, rng.choice([0.5, -0.25, 1.0]))
+        if G.fixboth and not flat and rng.chance(0.45):
+            # level AND change of a trending quantity fixed at assigned values, its drift / growth parameter found instead
+            z, d, is_log = rng.choice(G.fixboth)
+            if z not in plan["exogenized"] and d not in plan["endogenized"] and z not in plan["fixed_change"]:
+                if z not in plan["fixed_level"]: plan["fixed_level"].append(z)
+                plan["fixed_change"].append(z); plan["endogenized"].append(d)
+                G.init[z] = (rng.choice([2.0, 1.0, 3.0]), rng.choice([1.03125, 1.0625, 1.015625] if is_log else [0.5, -0.25, 1.0]))
     has_plan = any(plan.values())
     split = rng.choice([None, True, False])
     # leave some initial values unassigned (default initial guess) -- never for plan-fixed ones
@@ -602,7 +737,7 @@ def gen_case(rng: Rng, force=None) -> dict:
     for k, v in G.init.items():
         if k in pinned or rng.chance(0.8):
             init[k] = v
-    eq_text = lambda lr: f"{to_text(lr[0])} = {to_text(lr[1])}"
+    eq_text = lambda lr: eq_source(G.dyn, lr)
     src = []
     # the quantity ids follow the order of declaration: vary it (also the order of the equations), so that the members of a
     # block are not always neighbours with small ids
@@ -619,12 +754,13 @@ def gen_case(rng: Rng, force=None) -> dict:
     src.append("!transition-equations\n" + "\n".join(f"    {eq_text(e)};" for e in G.teqs))
     if G.meqs: src.append("!measurement-equations\n" + "\n".join(f"    {eq_text(e)};" for e in G.meqs))
     if G.autos: src.append("!steady-autovalues\n" + "\n".join(f"    {eq_text(e)};" for e in G.autos))
-    return {
+    return avoid_known_split_defect({
         "source": "\n".join(src) + "\n", "linear": linear, "flat": flat, "nv": nv, "params": G.params, "init": init,
         "plan": plan if has_plan else None, "split": split, "tags": G.tags,
         "solver": rng.weighted([("neqs_levenberg", 2), ("scipy_root", 1)]) if not linear else None,
+        "plan_spelling": rng.randint(1, 10**6) if has_plan else 0, "has_dyn": bool(G.dyn),
         "teqs": G.teqs, "meqs": G.meqs, "autos": G.autos, "tvars": G.tvars, "mvars": G.mvars, "logs": G.logs, "shocks": G.shocks,
-    }
+    })
 
 
 def case_for_json(case):
@@ -685,6 +821,55 @@ for _name in SOLVERS:
             (lambda real: (lambda **kw: getattr(SD, "create_solver_settings_for_" + real)(**kw)))(_name))
 
 
+def write_plan(plan, p: dict, spelling: int = 0):
+    """write the intended registers `p` into a SteadyPlan through the public spellings: `fix` (= fix_level + fix_change),
+    `fix_level(s)`, `fix_change(s)`, `swap`, `exogenize`/`endogenize`, with `un...` detours; spelling 0 is the plain one"""
+    if not spelling:
+        if p["exogenized"]: plan.exogenize(p["exogenized"])
+        if p["endogenized"]: plan.endogenize(p["endogenized"])
+        if p["fixed_level"]: plan.fix_level(p["fixed_level"])
+        if p["fixed_change"]: plan.fix_change(p["fixed_change"])
+        return
+    rng = Rng(spelling)
+    growth = bool(plan.can_be_fixed_change)
+    both = [n for n in p["fixed_level"] if n in p["fixed_change"]]
+    for n in both:
+        how = rng.choice(["fix", "fix", "fix", "separate", "plural", "detour"]) if growth else "separate"
+        if how == "fix": plan.fix(n)
+        elif how == "separate": plan.fix_level(n); plan.fix_change(n)
+        elif how == "plural": plan.fix_levels([n]); plan.fix_changes([n])
+        else: plan.fix(n); plan.unfix(n); plan.fix(n)
+    for n in p["fixed_level"]:
+        if n in both: continue
+        how = rng.choice(["plain", "plural", "detour"]) if growth else rng.choice(["plain", "plural", "fix"])
+        if how == "plain": plan.fix_level(n)
+        elif how == "plural": plan.fix_levels(n)
+        elif how == "fix": plan.fix(n)                       # flat plan: `fix` is the level only
+        else: plan.fix(n); plan.unfix_change(n)
+    for n in p["fixed_change"]:
+        if n in both: continue
+        if rng.chance(0.6): plan.fix_change(n)
+        else: plan.fix(n); plan.unfix_level(n)
+    exo, endo = list(p["exogenized"]), list(p["endogenized"])
+    while exo and endo and rng.chance(0.6):
+        plan.swap((exo.pop(0), endo.pop(0)))
+    if exo:
+        plan.exogenize(exo if rng.chance(0.5) else tuple(exo))
+    for n in endo:
+        plan.endogenize(n)
+    # detours that must leave no trace
+    if rng.chance(0.4):
+        others = [n for n in plan.can_be_exogenized if n not in p["exogenized"]]
+        if others:
+            n = rng.choice(sorted(others))
+            plan.exogenize(n); plan.unexogenize(n)
+    if rng.chance(0.3):
+        others = [n for n in plan.can_be_endogenized if n not in p["endogenized"]]
+        if others:
+            n = rng.choice(sorted(others))
+            plan.endogenize(n); plan.unendogenize(n)
+
+
 def build(case):
     m = ir.Simultaneous.from_string(case["source"], linear=case["linear"], flat=case["flat"])
     if case["nv"] > 1:
@@ -698,11 +883,7 @@ def build(case):
     plan = None
     if case["plan"]:
         plan = ir.SteadyPlan(m)
-        p = case["plan"]
-        if p["exogenized"]: plan.exogenize(p["exogenized"])
-        if p["endogenized"]: plan.endogenize(p["endogenized"])
-        if p["fixed_level"]: plan.fix_level(p["fixed_level"])
-        if p["fixed_change"]: plan.fix_change(p["fixed_change"])
+        write_plan(plan, case["plan"], case.get("plan_spelling", 0))
     return m, plan
 
 
@@ -817,7 +998,8 @@ def oracle(ctx: Ctx, case, m, before, tol=TOL_ORACLE, payload=None, note="", dat
     # the implementation's own observation point
     try:
         with contextlib.redirect_stdout(io.StringIO()):
-            _, info = m.check_steady(return_info=True, when_fails="silent", unpack_singleton=False)
+            kw = {"equation_switch": "steady"} if case.get("has_dyn") else {}
+            _, info = m.check_steady(return_info=True, when_fails="silent", unpack_singleton=False, **kw)
         for vid, i in enumerate(info):
             if vid in collapsed_vids:
                 continue        # a log-variable level of (nearly) 0 gives log -> -inf / NaN cells in create_steady_array
@@ -862,8 +1044,13 @@ def steady_line(case, m, plan, vid, before, records):
     wrt = S._resolve_steady_wrt(m, plan, is_flat=flags.is_flat)
     split = S._resolve_split_into_blocks(case["split"], plan)
     if split:
-        im = S._calculate_steady_incidence_matrix(wrt.equations, wrt.qids)
-        blocks = BZ.blaze(im, wrt.eids, wrt.qids)
+        # the columns the code orders: all unknown qids, or (once the fix for fully fixed quantities is in) those with unknowns
+        bq = S._get_qids_with_unknowns(wrt, flags.is_flat) if hasattr(S, "_get_qids_with_unknowns") else wrt.qids
+        if hasattr(S, "_get_qids_with_unknowns") and len(bq) != len(wrt.eids):
+            blocks = (BZ.Block(wrt.eids, wrt.qids),)          # the fixed code solves as one system when no 1-1 ordering exists
+        else:
+            im = S._calculate_steady_incidence_matrix(wrt.equations, bq)
+            blocks = BZ.blaze(im, wrt.eids, bq)
     else:
         blocks = (BZ.Block(wrt.eids, wrt.qids),)
     # equations by eid, from the generator's trees, matched through the human text
@@ -1282,6 +1469,60 @@ def run_flags(ctx: Ctx):
     ctx.evaluations += len(lines)
 
 
+PLAN_OPS = ["exogenize", "unexogenize", "endogenize", "unendogenize", "fix_level", "unfix_level", "fix_change", "unfix_change",
+            "fix", "unfix", "swap", "unswap", "fix_levels", "fix_changes"]
+
+
+def run_planops(ctx: Ctx):
+    """random sequences of the public mutators of SteadyPlan (all spellings) on growth and flat plans: the four registers
+    against the model `Plan.applyAll`; and, independently of the model, spelling equivalence on the real code: the same
+    sequence with `fix` / `unfix` / `swap` / `unswap` / plural aliases expanded into their elementary calls must give the
+    same registers"""
+    rng = ctx.rng.fork("planops")
+    src = "!transition-variables\n    x, y, z, w\n!parameters\n    a, b, c\n!transition-equations\n    x = a*x[-1] + b;\n    y = y[-1] + c;\n    z = x + y;\n    w = 0.5*w[-1] + z;\n"
+    lines, impl = [], []
+    for flat in (False, True):
+        m = ir.Simultaneous.from_string(src, flat=flat)
+        qid = m.create_name_to_qid()
+        for _ in range(ctx.n(40, 400)):
+            p1, p2 = ir.SteadyPlan(m), ir.SteadyPlan(m)
+            ops = []
+            for _ in range(rng.randint(1, 7)):
+                op = rng.choice(PLAN_OPS)
+                if flat and op in ("fix_change", "unfix_change", "fix_changes"):
+                    continue                     # a flat plan has no fixed-change register: these calls are rejected
+                v = rng.choice(["x", "y", "z", "w"]); q = rng.choice(["a", "b", "c"])
+                if op in ("swap", "unswap"):
+                    getattr(p1, op)((v, q))
+                    getattr(p2, "exogenize" if op == "swap" else "unexogenize")(v)
+                    getattr(p2, "endogenize" if op == "swap" else "unendogenize")(q)
+                    ops.append(f"{op} {qid[v]} {qid[q]}")
+                elif op in ("endogenize", "unendogenize"):
+                    getattr(p1, op)(q); getattr(p2, op)(q); ops.append(f"{op} {qid[q]}")
+                else:
+                    getattr(p1, op)(v)
+                    base = {"fix_levels": "fix_level", "fix_changes": "fix_change"}.get(op, op)
+                    if base in ("fix", "unfix"):
+                        getattr(p2, base + "_level")(v)
+                        if not flat: getattr(p2, base + "_change")(v)
+                    else:
+                        getattr(p2, base)(v)
+                    ops.append(f"{base} {qid[v]}")
+                ctx.count("planops:" + op)
+            reg = lambda p: [sorted(qid[n] for n in g()) for g in (p.get_exogenized_names, p.get_endogenized_names,
+                                                                  p.get_fixed_level_names, p.get_fixed_change_names)]
+            r1, r2 = reg(p1), reg(p2)
+            ctx.evaluations += 1
+            if r1 != r2:
+                ctx.fail("plan-spelling-not-equivalent", {"planops": ops, "flat": flat},
+                         f"registers after the convenience spellings {r1} differ from the elementary calls {r2}")
+            if not ops:
+                continue
+            lines.append(f"planops {0 if flat else 1} ; " + " | ".join(ops))
+            impl.append(" ; ".join(",".join(map(str, r)) for r in r1))
+    ctx.compare("planops", lines, impl, ctx.model("C05", lines))
+
+
 def run_settings(ctx: Ctx):
     """sequences of calls of create_solver_settings_for_<solver>: the tolerance of each call depends on that call's
     arguments only (user value if given, else the equality tolerance passed in)"""
@@ -1472,11 +1713,7 @@ def run_session(ctx: Ctx, sess) -> None:
             # the plan is made for the mode that will be requested (fix_change only exists in growth mode)
             kw = {} if sess["create_flat"] == s_flat else {"flat": s_flat}
             plan = ir.SteadyPlan(m, **kw)
-            p = case["plan"]
-            if p["exogenized"]: plan.exogenize(p["exogenized"])
-            if p["endogenized"]: plan.endogenize(p["endogenized"])
-            if p["fixed_level"]: plan.fix_level(p["fixed_level"])
-            if p["fixed_change"]: plan.fix_change(p["fixed_change"])
+            write_plan(plan, case["plan"], case.get("plan_spelling", 0))
     except Exception as e:
         ctx.count("session_build_failed")
         ctx.extra.setdefault("session_build_failures", [])
@@ -1604,7 +1841,10 @@ def run(ctx: Ctx):
                 "re-assignments, per-call linear/flat overrides in both directions on models created with either flag), each completed "
                 "solve judged against the options in force at that call; exhaustive flag-resolution table; growth-mode models with more than eight "
                 "quantities declared in random order around one simultaneous block whose members have different steady changes; mode histories on "
-                "one object (exogenous variables with assigned trends, growth solve, flat re-solve with a swap plan, re-assignments). "
+                "one object (exogenous variables with assigned trends, growth solve, flat re-solve with a swap plan, re-assignments); plans written "
+                "through every public spelling (fix / fix_level+fix_change / plural aliases / swap / un... detours) incl. level-and-change "
+                "fixes; linear models whose transition constants are all exactly zero (0.0, -0.0, integer 0, near-edge 1e-9) with non-zero "
+                "measurement intercepts; `dynamic !! steady` equations (the steady versions are judged). "
                 "distinct_nontrivial = distinct (linear, flat, variants, split, module list, plan?, #equations, solver) among "
                 "solved cases, plus distinct non-constant path requests")
     for path, payload in corpus_cases():
@@ -1612,6 +1852,7 @@ def run(ctx: Ctx):
         ctx.count("corpus_replayed")
     run_paths(ctx)
     run_flags(ctx)
+    run_planops(ctx)
     # multi-step sessions come before everything else that solves: whatever state a solve leaves behind in the process
     # (module-level defaults, caches) is then empty at the start, and the later streams run on top of it
     run_sessions(ctx, ctx.n(36, 400))
@@ -1645,6 +1886,17 @@ def run(ctx: Ctx):
     for i in range(ctx.n(40, 400)):
         seed = trng.next()
         force = {"trends": True}
+        case = gen_case(Rng(seed), force)
+        case["gen_seed"], case["force"] = seed, force
+        run_case(ctx, case, pending)
+        if i % 4 == 0:
+            end_to_end_default_entry(ctx, case)
+    flush(ctx, pending); pending = []
+    # the data edge of the linear algorithm: all transition constants exactly zero, measurement intercepts non-zero
+    zrng = ctx.rng.fork("zero-const")
+    for i in range(ctx.n(24, 240)):
+        seed = zrng.next()
+        force = {"zero_const": True}
         case = gen_case(Rng(seed), force)
         case["gen_seed"], case["force"] = seed, force
         run_case(ctx, case, pending)
@@ -1693,7 +1945,7 @@ def search(ctx: Ctx, seeds):
         if len(ctx.failures) >= 3:
             break
         seed = rng.next()
-        force = {"hard": True} if i % 3 == 2 else ({"trends": True} if i % 3 == 1 else None)
+        force = {"hard": True} if i % 4 == 2 else ({"trends": True} if i % 4 == 1 else ({"zero_const": True} if i % 4 == 3 else None))
         case = gen_case(Rng(seed), force); case["gen_seed"], case["force"] = seed, force
         run_case(ctx, case, pending, with_model=False)
         if len(ctx.failures) >= 3:
@@ -1707,6 +1959,8 @@ def replay(ctx: Ctx, payload):
     if not isinstance(c, dict):
         return
     pending = []
+    if "planops" in c:
+        run_planops(ctx); return
     if "sess_seed" in c:
         hist = []
         for h in c.get("history", []):          # rebuild the process state the session ran in
